@@ -83,8 +83,10 @@ SHAPES = {
     "v662": (6, 6, 2),
     "c345": (3, 4, 5),
     "I66": (6, 6),
+    "a66f": (6, 6),  # same values as a66, stored as float32 (dtype axis)
+    "a88f": (8, 8),
 }
-_SALT = {"a66": 0, "b49": 1, "a88": 2, "d88": 5, "b6x10": 3, "v662": 4, "c345": 6, "I66": 7}
+_SALT = {"a66": 0, "b49": 1, "a88": 2, "d88": 5, "b6x10": 3, "v662": 4, "c345": 6, "I66": 7, "a66f": 0, "a88f": 2}
 
 
 def pattern(shape, salt):
@@ -94,6 +96,8 @@ def pattern(shape, salt):
 
 def make_input(name):
     a = pattern(SHAPES[name], _SALT[name])
+    if name.endswith("f"):
+        return a.astype(np.float32)
     if name.startswith("I"):
         import darsia
 
@@ -102,7 +106,8 @@ def make_input(name):
 
 
 def make_rhs(name):
-    return pattern(SHAPES[name], _SALT[name] + 11) + 0.25
+    out = pattern(SHAPES[name], _SALT[name] + 11) + 0.25
+    return out.astype(np.float32) if name.endswith("f") else out
 
 
 def coef_value(c, shape=(8, 8)):
@@ -167,6 +172,8 @@ W_OPTS = {
     "Wb-aa": ("bregman", {"L": 1.0, "linear_solver": "direct", "formulation": "pressure", "aa_depth": 2, "aa_restart": 3}),
     "Wab-d": ("adaptive-bregman", {"L": 1.0, "linear_solver": "direct", "formulation": "pressure"}),
     "Wab-a": ("adaptive-bregman", {"L": 1.0, "linear_solver": "amg", "formulation": "pressure", "linear_solver_options": {"atol": 1e-10}}),
+    "Wab-late": ("adaptive-bregman-late", {"L": 1.0, "linear_solver": "direct", "formulation": "pressure"}),
+    "Wab-aa": ("adaptive-bregman", {"L": 1.0, "linear_solver": "direct", "formulation": "pressure", "aa_depth": 2, "aa_restart": 3}),
 }
 W_ITER = 6
 SOLVERS = {
@@ -187,6 +194,11 @@ ANDERSON = {
 
 def _adaptive_schedule(it):
     return it % 2 == 0
+
+
+def _late_schedule(it):
+    """Re-weighting that does not fire in the first iteration (it = 2, 5, ...)."""
+    return it % 3 == 2
 
 
 def _tvd_adaptive(it):
@@ -211,6 +223,8 @@ def make_object(name, shared):
         opts.update(num_iter=W_ITER, return_info=True)
         if method == "adaptive-bregman":
             opts["bregman_update"] = _adaptive_schedule
+        if method == "adaptive-bregman-late":
+            opts["bregman_update"] = _late_schedule
         if "grid" not in shared:
             shared["grid"] = darsia.generate_grid(w_pair("P1")[0])
         cls = darsia.WassersteinDistanceNewton if method == "newton" else darsia.WassersteinDistanceBregman
@@ -264,18 +278,21 @@ def group_spec(g, tier):
         for o in objs:
             ops += [op_set(o, C0), op_set(o, C1)]
             ops += [op_solve(o, h, i) for h in (1, 2) for i in ("a66", "b49")]
+            ops += [op_solve(o, 1, "a66f")]  # same shape, other dtype
         return objs, ops, "snap"
     if g == "mg":
         objs = ["M0", "M1"]
         ops = []
         for o in objs:
             ops += [op_set(o, C0), op_set(o, C1)] + [op_solve(o, None, i) for i in ("a88", "b6x10")]
+        ops += [op_solve("M1", None, "a88f")]
         return objs, ops, "snap"
     if g == "mg-het":
         return ["Mh"], [op_set("Mh", ["P1", 0.5]), op_set("Mh", ["P2", 0.5]), op_solve("Mh", None, "a88"), op_solve("Mh", None, "d88")], "snap"
     if g == "h1-default":
         ops = [op_h1(H, i, mu, om) for i in ("a66", "b49", "v662", "I66") for mu in (0.1, 5.0) for om in (1.0, 2.0)]
         ops += [op_h1(H, "c345", 0.1, 1.0, dim=3), op_h1(H, "c345", 5.0, 2.0, dim=3)]
+        ops += [op_h1(H, "a66f", 0.1, 1.0)]  # float32 image through the shared default solver
         ops += [op_h1("_H1_regularization_array", "a66", 0.1, 1.0), op_h1("_H1_regularization_array", "a66", 5.0, 2.0)]
         ops += [op_h1("_H1_regularization_image", "I66", 0.1, 1.0), op_h1("_H1_regularization_image", "I66", 5.0, 2.0)]
         return [], ops, "snap"
